@@ -202,7 +202,30 @@ class Expr:
                 c = _frac_pow(t.coef, e)
                 if c is not None and all(_pow_distributes(a) for a, _ in t.facs):
                     return Expr([Term(c, (), [(a, x * e) for a, x in t.facs])])
-        return Expr([Term(1, (), [(("P", alpha_normalize(self)), e)])])
+        base = alpha_normalize(self)
+        # pull non-negative factors common to all terms out of the power: (c*Q)^e = c^e * Q^e for c >= 0
+        if base.terms and all(not t.bound or True for t in base.terms):
+            common = None
+            for t in base.terms:
+                d = {a: x for a, x in t.facs if _pow_distributes(a)}
+                if common is None:
+                    common = d
+                else:
+                    common = {a: min(x, d[a]) if (x > 0) == (d[a] > 0) else 0 for a, x in common.items() if a in d}
+                    common = {a: x for a, x in common.items() if x != 0}
+                if not common:
+                    break
+            if common and len(base.terms) >= 1:
+                # only factors that do not involve a bound variable of any term can be pulled out of the sums
+                bvs = set()
+                for t in base.terms:
+                    bvs |= set(t.bound)
+                common = {a: x for a, x in common.items() if not (a_vars(a) & bvs)}
+            if common:
+                rest = Expr([Term(t.coef, t.bound, [(a, x - common.get(a, 0)) for a, x in t.facs]) for t in base.terms])
+                outer = Expr([Term(1, (), [(a, x * e) for a, x in common.items()])])
+                return outer * rest.power(e)
+        return Expr([Term(1, (), [(("P", base), e)])])
 
     def free_vars(self):
         s = set()
@@ -715,7 +738,7 @@ def atom_key_masked(a, ren):
     return atom_key(a, ren, 0)
 
 
-MAX_PERMS = 40320
+MAX_PERMS = 5040
 MAX_EXPAND = 8
 # rewriting rules that hold only under a side condition of the obligation (set/cleared by the obligation runner)
 RULES = {"sign_sq_one": False}
@@ -725,42 +748,82 @@ ORTHO = {}
 
 
 def term_key(t, ren, depth, want_ren=False):
-    """Canonical key of a *simplified* term under the outer renaming `ren`."""
+    """Canonical key of a *simplified* term under the outer renaming `ren`.
+    Bound variables are canonically labelled by individualisation–refinement (colour refinement over the atoms seen as
+    hyperedges); all members of the first non-trivial cell are tried, so the result does not depend on variable names."""
     bound = list(t.bound)
     if not bound:
         fk = tuple(sorted(((atom_key(a, ren, depth), e) for a, e in t.facs), key=repr))
         return (((), fk), {}) if want_ren else ((), fk)
     bset = set(bound)
-    sig = {}
-    for v in bound:
-        occ = sorted(_mask_key(a, v, bset) + "^" + str(e) for a, e in t.facs if v in a_vars(a))
-        sig[v] = (repr(sint_key(VSIZE[v])), tuple(occ))
-    groups = {}
-    for v in bound:
-        groups.setdefault(sig[v], []).append(v)
-    gkeys = sorted(groups, key=repr)
-    nperm = 1
-    for g in gkeys:
-        nperm *= math.factorial(len(groups[g]))
-    if nperm > MAX_PERMS:
-        raise EngineError(f"canonicalisation too large ({nperm} permutations)")
-    best = None
-    for perms in itertools.product(*[itertools.permutations(groups[g]) for g in gkeys]):
+    occ_atoms = {v: [] for v in bound}
+    for a, e in t.facs:
+        av = a_vars(a)
+        for v in bound:
+            if v in av:
+                occ_atoms[v].append((a, e))
+    outer = {k: v for k, v in ren.items()}
+
+    def refine(col):
+        # col: var -> hashable colour.  iterate until the partition is stable
+        while True:
+            new = {}
+            for v in bound:
+                env = []
+                for a, e in occ_atoms[v]:
+                    ren_c = dict(outer)
+                    for b in bset:
+                        ren_c[b] = ("*", col[b])
+                    ren_c[v] = "@"
+                    env.append((repr(atom_key_masked(a, ren_c)), str(e)))
+                new[v] = (col[v], tuple(sorted(env)))
+            # compress colours to small ints by sorted order (name independent)
+            ranks = {c: i for i, c in enumerate(sorted(set(new.values()), key=repr))}
+            new = {v: ranks[new[v]] for v in bound}
+            if len(set(new.values())) == len(set(col.values())):
+                return new
+            col = new
+
+    leaves = [0]
+    best = [None, None]
+
+    def leaf(col):
+        leaves[0] += 1
+        if leaves[0] > MAX_PERMS:
+            raise EngineError(f"canonicalisation too large (> {MAX_PERMS} labelings)")
+        order = sorted(bound, key=lambda v: col[v])
         r2 = dict(ren)
-        n = 0
         names = []
-        for p in perms:
-            for v in p:
-                nm = f"#{depth}.{n}"
-                r2[v] = nm
-                names.append((nm, repr(sint_key(VSIZE[v]))))
-                n += 1
+        for n, v in enumerate(order):
+            nm = f"#{depth}.{n}"
+            r2[v] = nm
+            names.append((nm, repr(sint_key(VSIZE[v]))))
         fk = tuple(sorted(((atom_key(a, r2, depth), e) for a, e in t.facs), key=repr))
         key = (tuple(names), fk)
-        if best is None or repr(key) < repr(best):
-            best = key
-            best_ren = {v: r2[v] for v in bound}
-    return (best, best_ren) if want_ren else best
+        if best[0] is None or repr(key) < repr(best[0]):
+            best[0] = key
+            best[1] = {v: r2[v] for v in bound}
+
+    def search(col):
+        col = refine(col)
+        cells = {}
+        for v in bound:
+            cells.setdefault(col[v], []).append(v)
+        nontrivial = [c for c in sorted(cells) if len(cells[c]) > 1]
+        if not nontrivial:
+            leaf(col)
+            return
+        c = nontrivial[0]
+        for v in cells[c]:
+            col2 = {u: (col[u] * 2 + (0 if u == v else 1)) if col[u] == c else col[u] * 2 for u in bound}
+            search(col2)
+
+    init = {}
+    for v in bound:
+        init[v] = repr(sint_key(VSIZE[v]))
+    ranks = {c: i for i, c in enumerate(sorted(set(init.values())))}
+    search({v: ranks[init[v]] for v in bound})
+    return (best[0], best[1]) if want_ren else best[0]
 
 
 def alpha_normalize(expr):
